@@ -30,17 +30,24 @@
 (* Defects (CONSTANT): the code as it is = all of them; {} = the repaired design.     *)
 (*   "UnclaimedActivate"  tryClaimGrain: AlreadyExists followed by a GetGrain that    *)
 (*                        finds nothing returns (false, nil) and the caller activates *)
-(*                        WITHOUT a claim.  Repair: retry the claim.                  *)
+(*                        WITHOUT a claim.  Repair (FIXED in /repo, claimGrain): the  *)
+(*                        claim is attempted again, at most MaxClaimTries times.      *)
 (*   "DeleteBeforeRemove" deactivate deletes the local grains entry before it removes *)
 (*                        the registry record, so a re-activation on the same node    *)
 (*                        (owner = local, no claim) gets its record removed.  Repair: *)
-(*                        RemoveGrain first, then grains.Delete.                      *)
+(*                        RemoveGrain first, then grains.Delete (FIXED in /repo).     *)
 (*   "StaleOwnerSnapshot" activateGrainLocally trusts an owner snapshot taken outside *)
 (*                        the single-flight.  Repair: ownership is (re)established    *)
 (*                        inside the single-flight (ensureGrainOwnership).            *)
 (*   "ForeignRemove"      tryRemoteGrainActivation removes the owner's record when    *)
 (*                        the remote activation request fails for ANY reason (e.g.    *)
 (*                        OnActivate failed over there).  Repair: return the error.   *)
+(*   "RepublishActive"    activateGrainLocally / recreateGrain run finalizeGrainActivation *)
+(*                        (grains.Set + plain PutGrain) also for a process that was    *)
+(*                        ALREADY active and unclaimed by this call; that write races  *)
+(*                        with a concurrent deactivation of the process and lands after*)
+(*                        its RemoveGrain.  Repair: nothing activated, nothing claimed *)
+(*                        -> nothing to publish.                                       *)
 EXTENDS Integers, Sequences, FiniteSets, TLC
 
 CONSTANTS Nodes, Threads, Kind, Org, MaxHops, MaxFails, Defects,
@@ -49,6 +56,7 @@ CONSTANTS Nodes, Threads, Kind, Org, MaxHops, MaxFails, Defects,
 
 NoNode == "-"
 NoThread == "-"
+MaxClaimTries == 3     \* actor/grain_engine.go maxGrainClaimAttempts
 
 VARIABLES reg,      \* registry record of the identity: owner node or NoNode
           gmap,     \* [Nodes -> Nat]  grains map: process id registered under the identity (0 = none)
@@ -67,7 +75,7 @@ core == <<reg, gmap, pnode, pact, live, flight, wait, th, fails>>
 Has(d) == d \in Defects
 
 T0(t) == [pc |-> "call", cur |-> Org[t], prog |-> "-", own |-> NoNode, claimed |-> FALSE, pid |-> 0,
-          actHere |-> FALSE, hops |-> 0, res |-> [k |-> "-", o |-> NoNode]]
+          actHere |-> FALSE, hops |-> 0, tries |-> 0, res |-> [k |-> "-", o |-> NoNode]]
 
 Init == /\ reg = NoNode
         /\ gmap = [n \in Nodes |-> 0]
@@ -98,10 +106,6 @@ WithProc(s, t, m) ==
 \* finalizeGrainActivation up to its PutGrain: grains.Set(key, process)
 Finalize(s, t) == [s EXCEPT !.gmap[s.th[t].cur] = s.th[t].pid, !.th[t].pc = "P"]
 
-\* ownership is settled (claimed or not): activate unless the process is already active
-AfterClaim(s, t) == IF s.th[t].pid \in s.pact THEN Finalize([s EXCEPT !.th[t].actHere = FALSE], t)
-                    ELSE [s EXCEPT !.th[t].pc = "act"]
-
 Block(s, t, m, prog) == [s EXCEPT !.th[t].pc = "wait", !.th[t].cur = m, !.th[t].prog = prog, !.wait[m] = @ \cup {t}]
 
 \* localSend on node m: ensureGrainProcess
@@ -111,22 +115,6 @@ EnterLS(s, t, m) ==
   ELSE LET s1 == WithProc([s EXCEPT !.flight[m] = t, !.th[t].cur = m, !.th[t].prog = "ens", !.th[t].claimed = FALSE,
                                     !.th[t].actHere = TRUE], t, m)
        IN [s1 EXCEPT !.th[t].pc = "oE"]
-
-\* activateGrainLocally on the origin node with the owner snapshot th[t].own
-EnterLoc(s, t) ==
-  LET n == Org[t] IN
-  IF s.flight[n] # NoThread THEN Block([s EXCEPT !.th[t].cur = n], t, n, "loc")
-  ELSE LET s1 == WithProc([s EXCEPT !.flight[n] = t, !.th[t].cur = n, !.th[t].prog = "loc", !.th[t].claimed = FALSE,
-                                    !.th[t].actHere = TRUE], t, n)
-       IN IF ~Has("StaleOwnerSnapshot") THEN [s1 EXCEPT !.th[t].pc = "oE"]      \* repaired: re-resolve inside the flight
-          ELSE IF s.th[t].own = NoNode THEN [s1 EXCEPT !.th[t].pc = "cNX"]
-          ELSE AfterClaim(s1, t)
-
-\* recreateGrain on node m (inbound RemoteActivateGrain)
-EnterRec(s, t, m) ==
-  IF s.flight[m] # NoThread THEN Block(s, t, m, "rec")
-  ELSE AfterClaim(WithProc([s EXCEPT !.flight[m] = t, !.th[t].cur = m, !.th[t].prog = "rec", !.th[t].claimed = FALSE,
-                                     !.th[t].actHere = TRUE], t, m), t)
 
 \* what a thread does when its single-flight call returns r
 Cont(s, t, r) ==
@@ -148,6 +136,29 @@ EndFlight(s, t, r) ==
       s1 == [s EXCEPT !.flight[m] = NoThread, !.wait[m] = {},
                       !.th = [w \in Threads |-> IF w \in s.wait[m] THEN [s.th[w] EXCEPT !.pc = "woken", !.res = r] ELSE s.th[w]]]
   IN Cont(s1, t, r)
+
+\* ownership is settled (claimed or not): activate unless the process is already active
+AfterClaim(s, t) == IF s.th[t].pid \in s.pact
+                    THEN (IF Has("RepublishActive") \/ s.th[t].claimed
+                          THEN Finalize([s EXCEPT !.th[t].actHere = FALSE], t)
+                          ELSE EndFlight(s, t, Res("ok", NoNode)))
+                    ELSE [s EXCEPT !.th[t].pc = "act"]
+
+\* activateGrainLocally on the origin node with the owner snapshot th[t].own
+EnterLoc(s, t) ==
+  LET n == Org[t] IN
+  IF s.flight[n] # NoThread THEN Block([s EXCEPT !.th[t].cur = n], t, n, "loc")
+  ELSE LET s1 == WithProc([s EXCEPT !.flight[n] = t, !.th[t].cur = n, !.th[t].prog = "loc", !.th[t].claimed = FALSE,
+                                    !.th[t].actHere = TRUE], t, n)
+       IN IF ~Has("StaleOwnerSnapshot") THEN [s1 EXCEPT !.th[t].pc = "oE"]      \* repaired: re-resolve inside the flight
+          ELSE IF s.th[t].own = NoNode THEN [s1 EXCEPT !.th[t].pc = "cNX", !.th[t].tries = 0]
+          ELSE AfterClaim(s1, t)
+
+\* recreateGrain on node m (inbound RemoteActivateGrain)
+EnterRec(s, t, m) ==
+  IF s.flight[m] # NoThread THEN Block(s, t, m, "rec")
+  ELSE AfterClaim(WithProc([s EXCEPT !.flight[m] = t, !.th[t].cur = m, !.th[t].prog = "rec", !.th[t].claimed = FALSE,
+                                     !.th[t].actHere = TRUE], t, m), t)
 
 \* ---------------------------------------------------------------- steps
 Woken == {w \in Threads : th[w].pc = "woken"}
@@ -189,11 +200,11 @@ IdentRemove(t) ==
 \* ensureGrainOwnership / getGrainOwner
 OwnExists(t) ==
   /\ At(t, "oE")
-  /\ Commit([S0 EXCEPT !.th[t].pc = IF reg = NoNode THEN "cNX" ELSE "oG"], t, "E")
+  /\ Commit([S0 EXCEPT !.th[t].pc = IF reg = NoNode THEN "cNX" ELSE "oG", !.th[t].tries = 0], t, "E")
 
 OwnGet(t) ==
   /\ At(t, "oG")
-  /\ Commit(IF reg = NoNode THEN [S0 EXCEPT !.th[t].pc = "cNX"]
+  /\ Commit(IF reg = NoNode THEN [S0 EXCEPT !.th[t].pc = "cNX", !.th[t].tries = 0]
             ELSE IF reg = th[t].cur THEN AfterClaim(S0, t)
             ELSE EndFlight(S0, t, Res("mis", reg)), t, "G")
 
@@ -201,12 +212,14 @@ OwnGet(t) ==
 ClaimNX(t) ==
   /\ At(t, "cNX")
   /\ Commit(IF reg = NoNode THEN AfterClaim([S0 EXCEPT !.reg = th[t].cur, !.th[t].claimed = TRUE], t)
-            ELSE [S0 EXCEPT !.th[t].pc = "cG"], t, "NX")
+            ELSE [S0 EXCEPT !.th[t].pc = "cG", !.th[t].tries = @ + 1], t, "NX")
 
 ClaimGet(t) ==
   /\ At(t, "cG")
   /\ CommitD(IF reg = NoNode
-             THEN (IF Has("UnclaimedActivate") THEN AfterClaim(S0, t) ELSE [S0 EXCEPT !.th[t].pc = "cNX"])
+             THEN (IF Has("UnclaimedActivate") THEN AfterClaim(S0, t)
+                   ELSE IF th[t].tries < MaxClaimTries THEN [S0 EXCEPT !.th[t].pc = "cNX"]       \* claimGrain: claim again
+                   ELSE EndFlight(S0, t, Res("err", NoNode)))                                     \* errGrainClaimContended
              ELSE IF reg = th[t].cur THEN AfterClaim(S0, t)
              ELSE EndFlight(S0, t, Res("mis", reg)), t, "G",
              IF reg = NoNode /\ Has("UnclaimedActivate") THEN "UnclaimedActivate" ELSE "-")
